@@ -411,6 +411,10 @@ theorem runWorkers_comp (fuel : Nat) (m : M) (h : CompInv m.1) : CompInv (runWor
 theorem mutate_comp (s : St) (f : Option Nat) (how : Mut) (h : CompInv s) : CompInv (mutate s f how) := by
   comp_frame h
 
+/-- The stop command (fix C04-F6): the pending verification request is withdrawn, then `stop`. -/
+theorem stopCmd_comp (s : St) (h : CompInv s) : CompInv (({ s with doVerify := false }).stop false) :=
+  stop_comp _ false (h.of_frame rfl rfl rfl rfl rfl rfl rfl rfl)
+
 theorem handle_comp (s : St) (p : Parked) (kn : Nat → Bool) (op : Op) (h : CompInv s) :
     CompInv (handle s p kn op).1.1 := by
   unfold handle
@@ -430,7 +434,9 @@ theorem handle_comp (s : St) (p : Parked) (kn : Nat → Bool) (op : Op) (h : Com
     | exact mutate_comp s _ _ h
     | exact h.of_frame rfl rfl rfl rfl rfl rfl rfl rfl
     | (next heq => have hm := congrArg Prod.fst heq; simp only at hm; rw [← hm]; exact acceptPeer_comp (s, []) _ _ _ _ _ _ h)
-    | (simp only [onSt_fst]; exact (stop_comp s false h).of_frame rfl rfl rfl rfl rfl rfl rfl rfl)
+    | (simp only [onSt_fst]; exact (stopCmd_comp s h).of_frame rfl rfl rfl rfl rfl rfl rfl rfl)
+    | (simp only [onSt_fst]; exact stopCmd_comp s h)
+    | exact handleVerifyCommand_comp ({ s with persisted := none }, []) (h.of_frame rfl rfl rfl rfl rfl rfl rfl rfl)
     | (simp only [onSt_fst]
        exact (handleVerifyCommand_comp ({ s with persisted := none }, [])
          (h.of_frame rfl rfl rfl rfl rfl rfl rfl rfl)).of_frame rfl rfl rfl rfl rfl rfl rfl rfl)
